@@ -26,6 +26,9 @@ pub struct HistoryParams {
     /// weight of "sink a key range to a deeper level" (level-by-level manual compaction through the
     /// hook accessor): reaches levels 3-6, which size triggers only reach with gigabytes of data
     pub sink_weight: u64,
+    /// weight of "take a snapshot (at most three are held) or release one": compactions then have
+    /// to keep several versions of a user key, also as the last entries of an output file
+    pub snapshot_weight: u64,
     pub tiny_configs_on_reopen: bool,
     /// reopen with the same options (e.g. to keep appending to one reused WAL and manifest)
     pub keep_config_on_reopen: bool,
@@ -49,6 +52,7 @@ impl HistoryParams {
             reopen_weight: 3,
             compact_weight: 3,
             sink_weight: if idx % 3 == 1 { 4 } else { 0 },
+            snapshot_weight: if idx % 2 == 0 { 3 } else { 0 },
             tiny_configs_on_reopen: idx % 4 != 3,
             keep_config_on_reopen: false,
         }
@@ -67,6 +71,7 @@ impl HistoryParams {
             reopen_weight: 1,
             compact_weight: 0,
             sink_weight: 0,
+            snapshot_weight: 0,
             tiny_configs_on_reopen: false,
             keep_config_on_reopen: true,
         }
@@ -137,7 +142,8 @@ pub fn run(
     let mut counter = 0u64;
     let mut since_checkpoint = 0usize;
 
-    let total_weight = 45 + 12 + 8 + 15 + params.compact_weight + params.reopen_weight + 2 + 2 + params.sink_weight;
+    let total_weight = 45 + 12 + 8 + 15 + params.compact_weight + params.reopen_weight + 2 + 2 + params.sink_weight + params.snapshot_weight;
+    let mut held: Vec<raindb::Snapshot> = vec![];
     for opi in 0..params.n_ops {
         watch::tick();
         outcome.ops_done = opi + 1;
@@ -225,6 +231,9 @@ pub fn run(
                                     gen::config(rng)
                                 };
                                 outcome.reopen_pattern.push(if cfg.reuse { 'r' } else { 'f' });
+                                for snapshot in held.drain(..) {
+                                    sess.db().release_snapshot(snapshot);
+                                }
                                 if let Err(e) = sess.reopen(cfg) {
                                     out.violate(
                                         "open-failed/clean-reopen",
@@ -251,6 +260,14 @@ pub fn run(
                                             }
                                         }
                                         out.add("fills", 1);
+                                    }
+                                } else if roll >= 4 + params.sink_weight {
+                                    if held.len() < 3 && (held.is_empty() || rng.chance(0.6)) {
+                                        held.push(sess.db().get_snapshot());
+                                        out.add("snapshots_held_during_histories", 1);
+                                    } else {
+                                        let i = rng.usize_below(held.len());
+                                        sess.db().release_snapshot(held.swap_remove(i));
                                     }
                                 } else if roll >= 4 {
                                     // sink a key range one or more levels deeper
@@ -344,6 +361,11 @@ pub fn run(
     }
     if let Some(why) = &outcome.degenerate {
         out.inconclusive(format!("degenerate: {}", why.chars().take(160).collect::<String>()));
+    }
+    for snapshot in held.drain(..) {
+        if sess.db.is_some() {
+            sess.db().release_snapshot(snapshot);
+        }
     }
     // a history must not leave the DB to be dropped while the case is being judged: close it here
     sess.close();
